@@ -8,3 +8,45 @@ def c10c_native_table(ex, st):
     same term as the one the code reads, see pyvc/libext/c10c_numpy.py)"""
     from pyvc.libext.c10c_numpy import native_table
     return native_table(ex, st)
+
+
+@spec('c10c_new_object')
+def c10c_new_object(ex, st, obj):
+    """the object did not exist when the function under verification was entered (reference at or above the entry
+    allocation pointer).  In a callee: allocated by this call.  At a call site it only says `not one of the objects that
+    existed when the CALLER was entered` (weaker than the truth, hence sound)."""
+    import z3
+    from pyvc.vals import Val, v_bool
+    b = ex.box(st, obj)
+    return v_bool(z3.And(Val.is_ref(b), Val.rv(b) >= st.alloc0))
+
+
+@spec('c10c_is_dict')
+def c10c_is_dict(ex, st, d):
+    """A-DICT-WF for a field typed `dict | None` once None is excluded: the value is a Python dict, hence has the
+    representation invariant of every dict (its key list enumerates its domain without repetition).  The core assumes
+    exactly this for every field typed `dict`; for an Optional field it assumes nothing, so the fact is stated here."""
+    from pyvc.vals import V, v_bool
+    ty = d.ty.args[0] if d.kind == 'opt' else d.ty
+    if ty.kind != 'dict':
+        from pyvc.state import Unsupported
+        raise Unsupported('c10c_is_dict of a value that is not typed dict')
+    st.assume_wf_dict(V(d.t, ty))
+    return v_bool(True)
+
+
+@spec('c10c_raw')
+def c10c_raw(ex, st, obj, name):
+    """the value stored in field `name` of obj, untyped (for identity comparisons `is` / `is not` only: reading a
+    dict-typed field the ordinary way also states the dict representation invariant, which makes the
+    satisfiability check of a precondition that merely compares identities run into its time limit)"""
+    from pyvc.vals import ANY, V, as_ref
+    return V(st.read(as_ref(obj), name.lit), ANY)
+
+
+@spec('c10c_native_ref')
+def c10c_native_ref(ex, st):
+    """the native generator table as a bare reference (identity comparisons only)"""
+    from pyvc.libext.c10c_numpy import NATIVE_REF
+    from pyvc.vals import ANY, V, Val
+    return V(Val.ref(NATIVE_REF), ANY)
